@@ -424,8 +424,9 @@ func (e *Engine) applyContract(st *State, in ssa.Instruction, t callTarget, k fu
 }
 
 // havocLocation havocs one location named in a modifies clause:
-//   x.f        field f of object x           elems(s)  all elements of slice s
-//   *p         the cell p points to          all(T.f)  the whole component
+//
+//	x.f        field f of object x           elems(s)  all elements of slice s
+//	*p         the cell p points to          all(T.f)  the whole component
 func (e *Engine) havocLocation(st *State, env *SpecEnv, m Clause) (err error) {
 	defer func() {
 		if r := recover(); r != nil {
@@ -1605,7 +1606,9 @@ func (st *State) strictFrame() bool {
 	return c.Pure || len(c.Modifies) > 0
 }
 
-func isFreshRef(t Term) bool { return strings.HasPrefix(t.S, "(+ A0 ") || strings.HasPrefix(t.S, "(+ B!") }
+func isFreshRef(t Term) bool {
+	return strings.HasPrefix(t.S, "(+ A0 ") || strings.HasPrefix(t.S, "(+ B!")
+}
 
 func pathHasPrefix(p, prefix []int) bool {
 	if len(prefix) > len(p) {
